@@ -34,37 +34,82 @@ credentials, matched case-insensitively". -/
 def NamesSecret (k : Str) : Prop :=
   EndsInSecretWord k ∨ Contains ['c', 'r', 'e', 'd', 'e', 'n', 't', 'i', 'a', 'l', 's'] k
 
+/-- What `re.search` can see of a pattern of the fragment: its literal and whether it is anchored by `$`
+(under `search` a leading `.*` changes nothing). -/
+def patCore (p : Pat) : Str × Bool := (p.lit, p.dollar)
+
+/-- The statement's table: five words a key may *end* in, one it may *contain*. -/
+def namedCores : List (Str × Bool) :=
+  [(['p', 'a', 's', 's', 'w', 'o', 'r', 'd'], true), (['p', 'w', 'd'], true),
+   (['_', 's', 'e', 'c', 'r', 'e', 't'], true), (['_', 'k', 'e', 'y'], true),
+   (['_', 't', 'o', 'k', 'e', 'n'], true),
+   (['c', 'r', 'e', 'd', 'e', 'n', 't', 'i', 'a', 'l', 's'], false)]
+
+/-- What a core asks of a key. -/
+def coreNames (c : Str × Bool) (k : Str) : Prop :=
+  if c.2 then EndsIn c.1 k ∨ ∃ k', k = k' ++ ['\n'] ∧ EndsIn c.1 k' else Contains c.1 k
+
+/-- **The expressions the key test runs are the statement's table** — as *compiled*: the extractor
+follows the name `clean_record` tests a key with to its `re.compile` call(s) and evaluates the
+argument (a list of sources, word lists joined into one alternation, f-strings …); `a|b$` arrives as
+`a`, `b$`.  As sets (order, repetitions and a leading `.*` do not matter under `search`): the
+literals and their `$` anchors are exactly the six of the statement, the method is `search`, the flag
+`re.IGNORECASE`.  A dropped / added / re-anchored pattern, `.match`, a dropped flag break this. -/
+theorem key_table_is_the_named_one :
+    Gen.Sanitise.matchMode = 1 ∧ Gen.Sanitise.ignoreCase = true ∧
+      (∀ c ∈ patterns.map patCore, c ∈ namedCores) ∧ (∀ c ∈ namedCores, c ∈ patterns.map patCore) := by
+  decide
+
 /-- **Sensitive keys are exactly the keys the property names** — for the pattern table, flag and
 match method found in the source.  The only other keys treated as sensitive are those that name a
 secret after removing one final newline (Python's `$` also matches before a trailing `\n`). -/
 theorem sensitive_spec (k : Str) :
     sensitive k = true ↔ NamesSecret k ∨ ∃ k', k = k' ++ ['\n'] ∧ EndsInSecretWord k' := by
-  simp only [sensitive, patterns, Gen.Sanitise.keyPatterns, Gen.Sanitise.matchMode, List.map, List.any,
-    Bool.or_eq_true, Bool.or_false]
-  rw [search_dollar _ _ _ (by decide), search_dollar _ _ _ (by decide), search_dollar _ _ _ (by decide),
-    search_dollar _ _ _ (by decide), search_dollar _ _ _ (by decide), search_plain _ _ _ (by decide)]
-  simp only [NamesSecret, EndsInSecretWord]
+  obtain ⟨hm, hi, h₁, h₂⟩ := key_table_is_the_named_one
+  have hfold : ∀ c ∈ namedCores, c.1.map foldChar = c.1 := by decide
+  have hpat : ∀ p ∈ patterns, (patMatches 1 p k = true ↔ coreNames (patCore p) k) := by
+    intro p hp
+    have hl := hfold _ (h₁ _ (List.mem_map_of_mem hp))
+    obtain ⟨a, l, d⟩ := p
+    cases d
+    · simpa [coreNames, patCore] using search_plain l k a hl
+    · simpa [coreNames, patCore] using search_dollar l k a hl
+  have key : sensitive k = true ↔ ∃ c ∈ namedCores, coreNames c k := by
+    simp only [sensitive, List.any_eq_true, hm]
+    constructor
+    · rintro ⟨p, hp, h⟩
+      exact ⟨patCore p, h₁ _ (List.mem_map_of_mem hp), (hpat p hp).mp h⟩
+    · rintro ⟨c, hc, h⟩
+      obtain ⟨p, hp, rfl⟩ := List.mem_map.mp (h₂ c hc)
+      exact ⟨p, hp, (hpat p hp).mpr h⟩
+  rw [key]
+  simp only [namedCores, List.mem_cons, List.not_mem_nil, or_false, exists_eq_or_imp, exists_eq_left,
+    coreNames, if_true, NamesSecret, EndsInSecretWord, Bool.false_eq_true, if_false]
   constructor
-  · rintro (h | h | h | h | h | h)
-    all_goals first
-      | (rcases h with h | ⟨k', hk, h⟩
-         · left; left; simp [h]
-         · right; exact ⟨k', hk, by simp [h]⟩)
-      | (left; right; exact h)
-  · rintro (h | ⟨k', hk, h⟩)
-    · rcases h with (h | h | h | h | h) | h
-      · exact Or.inl (Or.inl h)
-      · exact Or.inr (Or.inl (Or.inl h))
-      · exact Or.inr (Or.inr (Or.inl (Or.inl h)))
-      · exact Or.inr (Or.inr (Or.inr (Or.inl (Or.inl h))))
-      · exact Or.inr (Or.inr (Or.inr (Or.inr (Or.inl (Or.inl h)))))
-      · exact Or.inr (Or.inr (Or.inr (Or.inr (Or.inr h))))
-    · rcases h with h | h | h | h | h
-      · exact Or.inl (Or.inr ⟨k', hk, h⟩)
-      · exact Or.inr (Or.inl (Or.inr ⟨k', hk, h⟩))
-      · exact Or.inr (Or.inr (Or.inl (Or.inr ⟨k', hk, h⟩)))
-      · exact Or.inr (Or.inr (Or.inr (Or.inl (Or.inr ⟨k', hk, h⟩))))
-      · exact Or.inr (Or.inr (Or.inr (Or.inr (Or.inl (Or.inr ⟨k', hk, h⟩)))))
+  · rintro ((h | ⟨k', hk, h⟩) | (h | ⟨k', hk, h⟩) | (h | ⟨k', hk, h⟩) | (h | ⟨k', hk, h⟩) | (h | ⟨k', hk, h⟩) | h)
+    · exact Or.inl (Or.inl (Or.inl h))
+    · exact Or.inr ⟨k', hk, Or.inl h⟩
+    · exact Or.inl (Or.inl (Or.inr (Or.inl h)))
+    · exact Or.inr ⟨k', hk, Or.inr (Or.inl h)⟩
+    · exact Or.inl (Or.inl (Or.inr (Or.inr (Or.inl h))))
+    · exact Or.inr ⟨k', hk, Or.inr (Or.inr (Or.inl h))⟩
+    · exact Or.inl (Or.inl (Or.inr (Or.inr (Or.inr (Or.inl h)))))
+    · exact Or.inr ⟨k', hk, Or.inr (Or.inr (Or.inr (Or.inl h)))⟩
+    · exact Or.inl (Or.inl (Or.inr (Or.inr (Or.inr (Or.inr h)))))
+    · exact Or.inr ⟨k', hk, Or.inr (Or.inr (Or.inr (Or.inr h)))⟩
+    · exact Or.inl (Or.inr h)
+  · rintro (((h | h | h | h | h) | h) | ⟨k', hk, (h | h | h | h | h)⟩)
+    · exact Or.inl (Or.inl h)
+    · exact Or.inr (Or.inl (Or.inl h))
+    · exact Or.inr (Or.inr (Or.inl (Or.inl h)))
+    · exact Or.inr (Or.inr (Or.inr (Or.inl (Or.inl h))))
+    · exact Or.inr (Or.inr (Or.inr (Or.inr (Or.inl (Or.inl h)))))
+    · exact Or.inr (Or.inr (Or.inr (Or.inr (Or.inr h))))
+    · exact Or.inl (Or.inr ⟨k', hk, h⟩)
+    · exact Or.inr (Or.inl (Or.inr ⟨k', hk, h⟩))
+    · exact Or.inr (Or.inr (Or.inl (Or.inr ⟨k', hk, h⟩)))
+    · exact Or.inr (Or.inr (Or.inr (Or.inl (Or.inr ⟨k', hk, h⟩))))
+    · exact Or.inr (Or.inr (Or.inr (Or.inr (Or.inl (Or.inr ⟨k', hk, h⟩)))))
 
 /-- The security direction on its own: every key the property names is treated as sensitive. -/
 theorem named_keys_are_sensitive (k : Str) (hk : NamesSecret k) : sensitive k = true :=
@@ -566,6 +611,110 @@ theorem write_event_text_url_userinfo_removed (base : List (Str × GVal)) (pre p
   simp only [writeEventText, eventTextLog, guard, if_true, redactUrlWith]
   rw [redactUrlWF_congr _ u₁ u₂ post h₁ h₂ pre.length pre (Nat.le_refl _) _ _ (Nat.le_succ _) (Nat.le_succ _)]
 
+/-! ## the structured logger's entry points (`GoogleLogger()`, what `get_logger()` returns under `K_SERVICE`) -/
+
+/-- **Every entry point hands the caller's message to `write_event` as it is**: the argument expressions of
+`base_logger` (what `logger.debug/…/alert` are) and of `__call__`, translated from the source, are the
+message itself - not `str(message)`, not a decorated text, and `write_event` is the function called. -/
+theorem structured_logger_entry_points_pass_the_message {α : Type} (w : Msg → α) (pyStr : Msg → Msg) (m : Msg) :
+    Gen.SanitiseFns.base_logger w pyStr m = w m ∧ Gen.SanitiseFns.call_logger w pyStr m = w m :=
+  ⟨rfl, rfl⟩
+
+/-- **A level method of a `GoogleLogger()` instance, end to end**: what `logger.<level>(dict)` prints - nothing
+below the level, else `write_event`'s line - is the same for two dicts with the same erasure.  Which levels are filtered (`Gen.SanitiseFns.logs_at`, the
+translated test of `create_logger`) is not part of the property: the statement holds for the test as it stands. -/
+theorem structured_logger_method_noninterference (h : Json → Str) (base : List (Str × GVal))
+    (level selfLevel : Int) (r₁ r₂ : List (Str × Json)) (he : eraseObj h r₁ = eraseObj h r₂) :
+    (if Gen.SanitiseFns.logs_at level selfLevel then
+        some (Gen.SanitiseFns.base_logger (fun m => match m with | .dict d => writeEvent h base d | _ => []) id (.dict r₁))
+      else none)
+    = (if Gen.SanitiseFns.logs_at level selfLevel then
+        some (Gen.SanitiseFns.base_logger (fun m => match m with | .dict d => writeEvent h base d | _ => []) id (.dict r₂))
+      else none) := by
+  rw [(structured_logger_entry_points_pass_the_message _ id (.dict r₁)).1,
+    (structured_logger_entry_points_pass_the_message _ id (.dict r₂)).1]
+  simp only [write_event_noninterference h base r₁ r₂ he]
+
+/-! ## from `logger.<level>(dict)` to the handler: `add_level.py`
+
+`get_logger()` installs `log_for_level` as `logger.debug / info / warning / error / audit / alert`.  It is
+the code between the caller's dict and the text `LogFormatter.format` sees; the statement's "a log message
+is a JSON object" is decided on what *it* hands to `Logger._log`. -/
+
+/-- The translation of `log_for_level` as it stands in `add_level.py` is the model `logForLevel`: serialise a
+dict (orjson, else json, else `str`), decode bytes, drop a record below the level or a repeated WARNING,
+hand everything else to `_log` unchanged.  A cap, a prefix, another fallback order, a decoration of the
+text break this equation. -/
+theorem generated_log_for_level_eq_model (oj js : List (Str × Json) → Option Str) (str : List (Str × Json) → Str)
+    (enabled isWarning : Bool) (seen : Msg → Bool) (m : Msg) :
+    Gen.SanitiseFns.log_for_level (ojMsg oj) (jsMsg js) (strMsg str) enabled isWarning seen m
+      = logForLevel oj js str enabled isWarning seen m := by
+  cases m with
+  | dict d =>
+    rcases ho : oj d with _ | b <;> rcases hj : js d with _ | t <;> cases enabled <;> cases isWarning <;>
+      simp [Gen.SanitiseFns.log_for_level, logForLevel, handOver, ojMsg, jsMsg, strMsg, Msg.isDict, Msg.isBytes,
+        Msg.decode, ho, hj] <;> (split <;> simp_all)
+  | bytes b =>
+    cases enabled <;> cases isWarning <;>
+      simp [Gen.SanitiseFns.log_for_level, logForLevel, handOver, Msg.isDict, Msg.isBytes, Msg.decode] <;>
+      (split <;> simp_all)
+  | text t =>
+    cases enabled <;> cases isWarning <;>
+      simp [Gen.SanitiseFns.log_for_level, logForLevel, handOver, Msg.isDict, Msg.isBytes] <;>
+      (split <;> simp_all)
+
+/-- **A dict reaches the formatter as its whole serialisation**: on the source's own translation, an enabled
+call that is not a repeated warning hands `_log` exactly the text `orjson.dumps` wrote - of any length. -/
+theorem logger_call_hands_over_the_serialisation (oj js : List (Str × Json) → Option Str)
+    (str : List (Str × Json) → Str) (isWarning : Bool) (seen : Msg → Bool) (d : List (Str × Json)) (t : Str)
+    (ht : oj d = some t) (hw : isWarning = false ∨ seen (.text t) = false) :
+    Gen.SanitiseFns.log_for_level (ojMsg oj) (jsMsg js) (strMsg str) true isWarning seen (.dict d) = some (.text t) := by
+  rw [generated_log_for_level_eq_model]
+  rcases hw with hw | hw <;> simp [logForLevel, handOver, ht, hw]
+
+/-- ... and when orjson refuses the dict (an integer beyond 64 bits, an unpaired surrogate) it is the
+standard library's JSON text, not `str(dict)` (F08). -/
+theorem logger_call_falls_back_to_json (oj js : List (Str × Json) → Option Str)
+    (str : List (Str × Json) → Str) (isWarning : Bool) (seen : Msg → Bool) (d : List (Str × Json)) (t : Str)
+    (ho : oj d = none) (ht : js d = some t) (hw : isWarning = false ∨ seen (.text t) = false) :
+    Gen.SanitiseFns.log_for_level (ojMsg oj) (jsMsg js) (strMsg str) true isWarning seen (.dict d) = some (.text t) := by
+  rw [generated_log_for_level_eq_model]
+  rcases hw with hw | hw <;> simp [logForLevel, handOver, ho, ht, hw]
+
+/-- **End to end** (`logger.error(dict)` → record): two dicts with the same erasure, logged through the
+translated `log_for_level` and formatted by `LogFormatter.format` behind the same header, give the same
+record (or are both dropped) - for every serialiser that the parser reads back (`hrt`: `json.loads` of the
+text `orjson.dumps` wrote is the dict; measured on every end-to-end case), whatever the level filter says,
+for every digest, colour setting and message length.  `hno`: the header is not itself JSON. -/
+theorem logger_call_noninterference (h : Json → Str) (can : Bool) (parse : Str → Option (List (Str × Json)))
+    (oj js : List (Str × Json) → Option Str) (str : List (Str × Json) → Str) (enabled : Bool)
+    (header j₁ j₂ : Str) (d₁ d₂ : List (Str × Json))
+    (hs₁ : oj d₁ = some j₁) (hs₂ : oj d₂ = some j₂)
+    (hrt₁ : parse j₁ = some d₁) (hrt₂ : parse j₂ = some d₂)
+    (ho₁ : firstNonSpace j₁ = some '{') (ho₂ : firstNonSpace j₂ = some '{')
+    (hno₁ : ∀ fs, fs ≠ [] → fs <:+ splitOn '|' header → parse (joinWith '|' (fs ++ splitOn '|' j₁)) = none)
+    (hno₂ : ∀ fs, fs ≠ [] → fs <:+ splitOn '|' header → parse (joinWith '|' (fs ++ splitOn '|' j₂)) = none)
+    (he : eraseObj h d₁ = eraseObj h d₂) :
+    emitted h can parse header
+        (Gen.SanitiseFns.log_for_level (ojMsg oj) (jsMsg js) (strMsg str) enabled false (fun _ => false) (.dict d₁))
+      = emitted h can parse header
+        (Gen.SanitiseFns.log_for_level (ojMsg oj) (jsMsg js) (strMsg str) enabled false (fun _ => false) (.dict d₂)) := by
+  rw [generated_log_for_level_eq_model, generated_log_for_level_eq_model]
+  cases enabled
+  · simp [logForLevel, emitted]
+  · simp only [logForLevel, handOver, hs₁, hs₂, emitted, if_true, Bool.false_and, Bool.false_eq_true, if_false]
+    rw [format_noninterference h can parse header j₁ j₂ d₁ d₂ hrt₁ hrt₂ ho₁ ho₂ hno₁ hno₂ he]
+
+/-- The seeded cap, as a counterexample kept in the file: a hand-over that cuts the text after `n`
+characters is *not* the model - already a three-character object loses its closing brace at `n = 2`. -/
+theorem a_capped_hand_over_is_not_the_model :
+    ∃ (oj : List (Str × Json) → Option Str) (d : List (Str × Json)),
+      (match handOver oj (fun _ => none) (fun _ => []) (.dict d) with
+        | .text t => some (t.take 2)
+        | _ => none) ≠ (oj d) := by
+  refine ⟨fun _ => some ['{', '}', ' '], [], ?_⟩
+  decide
+
 /-! ## non-vacuity -/
 
 /-- `UrlSafe` / `tokenHeadOK` are inhabited by what they are meant for, the isolation fails on a
@@ -584,6 +733,21 @@ example :
     (∀ f ∈ splitOn '|' ['n', ' ', '|', ' ', 'E', ' '], opensObject f = false)
     ∧ opensObject [Char.ofNat 0xfeff, ' ', '{', '"', 'a', '"', ':', '1', '}'] = true
     ∧ opensObject ['x', '{'] = false := by decide
+
+/-- `log_for_level` on concrete arguments: a dict orjson writes, a dict only json writes, a dict
+neither writes, bytes, a filtered call, a repeated warning - and the table the key theorem is about. -/
+example :
+    let oj : List (Str × Json) → Option Str := fun d => if d.length = 1 then some ['{', 'o', '}'] else none
+    let js : List (Str × Json) → Option Str := fun d => if d.length ≤ 2 then some ['{', 'j', '}'] else none
+    let f := Gen.SanitiseFns.log_for_level (ojMsg oj) (jsMsg js) (strMsg fun _ => ['s'])
+    f true false (fun _ => false) (.dict [(['a'], .null)]) = some (.text ['{', 'o', '}'])
+    ∧ f true false (fun _ => false) (.dict [(['a'], .null), (['b'], .null)]) = some (.text ['{', 'j', '}'])
+    ∧ f true false (fun _ => false) (.dict [(['a'], .null), (['b'], .null), (['c'], .null)]) = some (.text ['s'])
+    ∧ f true true (fun _ => false) (.bytes ['x']) = some (.text ['x'])
+    ∧ f false false (fun _ => false) (.text ['x']) = none
+    ∧ f true true (fun _ => true) (.text ['x']) = none
+    ∧ patterns.map patCore ≠ [] := by
+  refine ⟨by rfl, by rfl, by rfl, by rfl, by rfl, by rfl, by decide⟩
 
 /-- `VisibleAt` is inhabited two objects down: the token `T1` inside `{"a": {"n": "xT1y"}}`. -/
 example : VisibleAt ['T', '1'] [(['a'], .obj [(['n'], .str ['x', 'T', '1', 'y'])])] :=
